@@ -299,6 +299,10 @@ StringDictionaryRPHTFC::StringDictionaryRPHTFC(IteratorDictString *it,
 
   tableHT = builderHT->getTable();
   delete builderHT;
+
+  // The coder built for encoding knows nothing about the decoding table
+  delete coderHT;
+  coderHT = new StatCoder(tableHT, codewordsHT);
 }
 
 unsigned long StringDictionaryRPHTFC::locate(uchar *str, uint strLen) {
